@@ -243,5 +243,6 @@ pub fn stages(ctx: &Ctx, strict: bool) {
     // (c) havoc, file mode and payload mode (payload mode cross-reads bytes as arbitrary table types with generated args)
     let strat = || (havoc_strategy(&ix, 300_000, 8), any::<[u8; 16]>(), prop_oneof![2 => Just(0u8), 1 => Just(1u8)]).prop_map(|(m, ctl, mode)| Case { m, ctl, mode });
     ctx.prop_stage("cvar-generated", Isolation::Procs, ctx.n(60_000, 600_000), cvar_strategy, |c, s| test_cvar(c, s, strict));
+    crate::raregen::stage(ctx, strict);
     ctx.prop_stage("havoc", Isolation::Procs, ctx.n(30_000, 200_000), strat, |c, s| test_case(&ix, c, s, strict));
 }
